@@ -55,8 +55,12 @@ def parse_cardinality(val):
         min_val = parsed_vals[0].strip()
         max_val = parsed_vals[1].strip()
 
-        min_int = min_val.isdigit() and int(min_val) >= 0
-        max_int = max_val.isdigit() and int(max_val) >= 0
+        try:
+            min_int = min_val.isdigit() and int(min_val) >= 0
+            max_int = max_val.isdigit() and int(max_val) >= 0
+        except ValueError:
+            # isdigit accepts more than int does, e.g. superscript digits.
+            return None
 
         if min_int and max_int and int(max_val) >= int(min_val):
             return int(min_val), int(max_val)
